@@ -489,3 +489,37 @@ func (st FieldStore) FieldVal(fi *FuncInfo, f *types.Var) *Sym {
 func constantUint64(c *types.Const) (uint64, bool) {
 	return constant.Uint64Val(c.Val())
 }
+
+// RetVal resolves the i-th result of a return, looking through the result
+// cells go/ssa introduces when the function has deferred calls (`return x, y`
+// becomes stores to cells followed by a return of their loads).
+func (fi *FuncInfo) RetVal(ret *ssa.Return, i int) ssa.Value {
+	r := ret.Results[i]
+	ld, ok := r.(*ssa.UnOp)
+	if !ok || ld.Op != token.MUL {
+		return r
+	}
+	cell, ok := ld.X.(*ssa.Alloc)
+	if !ok {
+		return r
+	}
+	// nearest store to the cell on the way to the return: same block first, then up the dominator chain
+	b := ret.Block()
+	start := instrIndex(ret)
+	for {
+		for j := start - 1; j >= 0; j-- {
+			if st, ok := b.Instrs[j].(*ssa.Store); ok && st.Addr == cell {
+				return st.Val
+			}
+		}
+		if len(b.Preds) != 1 {
+			return r
+		}
+		b = b.Preds[0]
+		start = len(b.Instrs)
+	}
+}
+
+func (fi *FuncInfo) RetSym(ret *ssa.Return, i int) *Sym {
+	return fi.Sym(fi.RetVal(ret, i))
+}
